@@ -1948,7 +1948,13 @@ def dask_groupby_agg(
                     name=out_name,
                     block_index=icohort,
                     axis=axis,
-                    combine=partial(combine, agg=agg, reindex=new_reindex, keepdims=True),
+                    # only _simple_combine needs to be told that the blocks have been reindexed
+                    combine=partial(
+                        combine,
+                        agg=agg,
+                        keepdims=True,
+                        **({"reindex": new_reindex} if do_simple_combine else {}),
+                    ),
                     aggregate=partial(
                         aggregate, expected_groups=cohort_index, reindex=new_reindex, keepdims=True
                     ),
